@@ -19,7 +19,8 @@ import (
 //	                      Headers(func() { Header(...) }), Cookie(...), Path("/sv/{aa}") + Param("aa", ...)
 //	           api        in the API's HTTP expression, same forms, Path("/api/{aa}")
 //	keyword    the menu of L1Validation (validMenu): quick 8 keywords + 1 format, thorough every
-//	           non-format keyword but the one with both exclusive bounds (27) + 2 formats
+//	           non-format keyword but the one with both exclusive bounds and the one on Bytes (26)
+//	           + 2 formats
 //	attribute  plain: the payload attribute carries no validation of its own
 //	           conj:  it carries a DIFFERENT validation (httpPartner): both apply (conjunction);
 //	                  not for formats (a second rule would put strings outside the constructive
@@ -40,9 +41,6 @@ func L1HTTPValidation(thorough bool) []MethodCase {
 		for _, ve := range httpValidMenu(thorough) {
 			isFormat := strings.HasPrefix(ve.Name, "format_")
 			for _, loc := range []string{LocPath, LocQuery, LocHeader, LocCookie} {
-				if ve.Base.K == KBytes && loc == LocPath {
-					continue // bytes in a path segment are a C02 delivery class of their own
-				}
 				key := ""
 				switch level {
 				case "service":
@@ -144,6 +142,10 @@ func httpValidMenu(thorough bool) []validEntry {
 			// both exclusive bounds on one attribute: goa's known defect in the validation code
 			// itself (L1-validation reports it), it would only be restated here
 			continue
+		case ve.Base.K == KBytes:
+			// a length rule on Bytes outside the body does not compile (goa's known C01 defect,
+			// recorded per exact signature for L1-validation): nothing could be executed
+			continue
 		case thorough && strings.HasPrefix(ve.Name, "format_"):
 			if ve.Name != "format_date" && ve.Name != "format_ipv4" {
 				continue
@@ -198,6 +200,6 @@ func httpPartner(ve validEntry) (string, *Valid) {
 // HTTPValidationDoc describes the family for the evidence files.
 const HTTPValidationDoc = "validations written on the HTTP mapping element of a payload attribute (Param/Header/Cookie with a type and a DSL of its own) instead of, and in addition to, the attribute itself: " +
 	"location {path, query, header, cookie} x level {endpoint, service (Params/Headers groups, Cookie, service Path parameter), API (same forms, API Path parameter)} x keyword (quick: enum, min, max, exclusive min, exclusive max, min length, max length, pattern + format date; " +
-	"thorough: the 27 non-format keywords of the validation family but the one with both exclusive bounds + formats date, ipv4) x {the payload attribute has no validation, has a different validation: both apply} x {required, optional; path: required}, " +
+	"thorough: the 26 non-format keywords of the validation family that are left without the one with both exclusive bounds and the one on Bytes + formats date, ipv4) x {the payload attribute has no validation, has a different validation: both apply} x {required, optional; path: required}, " +
 	"and on the response side {response header, response cookie} x keyword x the same two attribute variants x {required, optional} (the client must refuse); one mapped attribute per method; formats only without a second rule; " +
 	"the reference folds the HTTP-level rules into the payload/result type (conjunction), values on both sides of every boundary of either rule"
